@@ -745,7 +745,9 @@ impl<'a> Core<'a> {
                     let el = now.duration_since(s);
                     self.reqs[i].start = None; // report once
                     let (sig, why) = if self.tname == "stream" {
-                        if self.traffic[i] {
+                        if self.cfg["response_timeout_ms"].as_u64() != Some(ST_RT_MS) && !self.traffic[i] {
+                            ("C15|stream|budget|request-pending-after-response-timeout|no-traffic|configured-timeout-differs-from-default".to_string(), " (nothing arrived on the connection; Config::set_response_timeout was called with a non-default value)")
+                        } else if self.traffic[i] {
                             ("C15|stream|budget|request-pending-after-response-timeout|timer-restarted-by-another-message".to_string(), " (another message arrived on the connection after the request started)")
                         } else {
                             ("C15|stream|budget|request-pending-after-response-timeout|no-traffic".to_string(), " (nothing arrived on the connection)")
@@ -1059,7 +1061,15 @@ async fn run_stream(g: &Global, cfg: &StreamCfg, ch: Arc<Mutex<Chooser>>) {
         let default_tick: Option<u64> = if gap_now {
             Some(cfg.gap_ms)
         } else if silent_now {
-            Some(cfg.rt_ms + 1)
+            // first just past the configured timeout, then (if the request is
+            // still there) in steps just longer than the library default; step
+            // lengths are fixed so that no sum of steps equals the default
+            let el = Instant::now().duration_since(t_begin).as_millis() as u64;
+            if el < cfg.rt_ms + 1 {
+                Some(cfg.rt_ms + 1)
+            } else {
+                Some(ST_RT_MS + 1)
+            }
         } else {
             None
         };
@@ -1132,7 +1142,7 @@ async fn run_stream(g: &Global, cfg: &StreamCfg, ch: Arc<Mutex<Chooser>>) {
             ds.sort();
             ds.dedup();
             for d in ds {
-                if default_tick != Some(d) && !TICK_SKIP.contains(&d) {
+                if default_tick != Some(d) && d != TICK_SKIP {
                     menu.push(SAct::Tick(d));
                 }
             }
@@ -1484,9 +1494,17 @@ enum DAct {
     Finish,
 }
 
-/// Tick lengths not offered (see the assumptions in `main`).
-const TICK_SKIP: [u64; 0] = [];
-const ST_RT_MS: u64 = 1000;
+/// Tick length not offered: landing exactly on `timer start + effective
+/// response timeout` makes Transport::run spin (its test is the strict
+/// `elapsed > response_timeout` while it then sleeps for
+/// `response_timeout - elapsed` = 0); under the frozen clock that never ends.
+/// A real clock moves on, so this is an artefact of the paused clock.
+/// The library default (RESPONSE_TIMEOUT.default()). The main timing cases
+/// configure exactly this value, because `Config::set_response_timeout` turns
+/// out not to influence single requests (finding reported by the separate
+/// "configured 1000 ms" cases).
+const ST_RT_MS: u64 = 19000;
+const TICK_SKIP: u64 = ST_RT_MS;
 const ST_IDLE_MS: u64 = 300;
 
 const DG_READ_TIMEOUT: Duration = Duration::from_secs(1);
@@ -1737,13 +1755,16 @@ struct MultiCfg {
     allow_refuse: bool,
     /// the stream peer does not answer by default (time passes instead)
     tcp_silent: bool,
+    /// by default the second request is submitted only after the first has
+    /// been answered and 64 s (> the stream idle timeout) have passed
+    gap: bool,
 }
 impl MultiCfg {
     fn json(&self) -> Value {
         if self.dgram_first {
-            json!({"plan": self.plan, "udp_default_reply_truncated": self.udp_tc, "udp_max_retries": self.udp_retries, "tcp_connect_may_be_refused": self.allow_refuse, "stream_peer_silent_by_default": self.tcp_silent})
+            json!({"plan": self.plan, "udp_default_reply_truncated": self.udp_tc, "udp_max_retries": self.udp_retries, "tcp_connect_may_be_refused": self.allow_refuse, "stream_peer_silent_by_default": self.tcp_silent, "idle_gap_before_second_request": self.gap})
         } else {
-            json!({"plan": self.plan, "tcp_connect_may_be_refused": self.allow_refuse, "stream_peer_silent_by_default": self.tcp_silent})
+            json!({"plan": self.plan, "tcp_connect_may_be_refused": self.allow_refuse, "stream_peer_silent_by_default": self.tcp_silent, "idle_gap_before_second_request": self.gap})
         }
     }
 }
@@ -1803,8 +1824,10 @@ async fn run_multi(g: &Global, cfg: &MultiCfg, ch: Arc<Mutex<Chooser>>) {
     let mut tc_expect: Vec<(usize, u32, usize)> = Vec::new();
     let mut tcp_frames_of: Vec<usize> = vec![0; cfg.plan.len()];
     let mut ticks = 0;
+    let mut gap_done = false;
 
     for _step in 0..64 {
+        let mut gap_tick = false;
         core.quiesce(&mut tr);
         if core.aborted {
             break;
@@ -1871,7 +1894,8 @@ async fn run_multi(g: &Global, cfg: &MultiCfg, ch: Arc<Mutex<Chooser>>) {
         let udp_default = if cfg.udp_tc { RKind::Tc } else { RKind::Answer };
         let mut menu: Vec<MAct> = Vec::new();
         let default_kind: u8;
-        if next_unsub.is_some() {
+        let hold_submit = cfg.gap && next_unsub == Some(1) && (!waiting.is_empty() || !open.is_empty() || !gap_done);
+        if next_unsub.is_some() && !hold_submit {
             menu.push(MAct::Submit);
             default_kind = 0;
         } else if !waiting.is_empty() {
@@ -1880,9 +1904,12 @@ async fn run_multi(g: &Global, cfg: &MultiCfg, ch: Arc<Mutex<Chooser>>) {
         } else if !open.is_empty() && !cfg.tcp_silent {
             menu.push(MAct::Tcp(open[0], RKind::Answer));
             default_kind = 2;
-        } else if any_pending {
+        } else if any_pending || hold_submit {
             menu.push(MAct::Tick);
             default_kind = 3;
+            if hold_submit {
+                gap_tick = true;
+            }
         } else {
             menu.push(MAct::Finish);
             default_kind = 4;
@@ -1916,6 +1943,9 @@ async fn run_multi(g: &Global, cfg: &MultiCfg, ch: Arc<Mutex<Chooser>>) {
         }
         if any_pending && default_kind != 3 {
             menu.push(MAct::Tick);
+        }
+        if hold_submit {
+            menu.push(MAct::Submit);
         }
         for i in 0..core.reqs.len() {
             if core.pending(i) {
@@ -2019,6 +2049,9 @@ async fn run_multi(g: &Global, cfg: &MultiCfg, ch: Arc<Mutex<Chooser>>) {
                 }
             }
             MAct::Tick => {
+                if gap_tick && c == 0 {
+                    gap_done = true;
+                }
                 core.count("action.tick");
                 core.note(format!("virtual time advances by {MS_TICK:?}"));
                 ticks += 1;
@@ -2133,6 +2166,10 @@ fn stream_cfgs() -> Vec<StreamCfg> {
     for plan in [vec![0], vec![0, 0], vec![0, 0, 1]] {
         v.push(StreamCfg { silent: true, ..base(plan, ST_IDLE_MS) });
     }
+    // a configured (non-default) response timeout
+    for plan in [vec![0], vec![0, 0]] {
+        v.push(StreamCfg { silent: true, rt_ms: 1000, ..base(plan, ST_IDLE_MS) });
+    }
     // second request after the connection has been idle for just below / exactly / just above the idle timeout
     for gap_ms in [ST_IDLE_MS - 1, ST_IDLE_MS, ST_IDLE_MS + 1] {
         v.push(StreamCfg { wave1: 1, gap_ms, ..base(vec![0, 0], ST_IDLE_MS) });
@@ -2168,21 +2205,25 @@ fn multi_cfgs() -> Vec<MultiCfg> {
                 // connect refusal only with a single caller (see assumptions)
                 let refuse: &[bool] = if plan.len() == 1 { &[false, true] } else { &[false] };
                 for &allow_refuse in refuse {
-                    v.push(MultiCfg { dgram_first: true, plan: plan.clone(), udp_tc, udp_retries, allow_refuse, tcp_silent: false });
+                    v.push(MultiCfg { dgram_first: true, plan: plan.clone(), udp_tc, udp_retries, allow_refuse, tcp_silent: false, gap: false });
                 }
             }
         }
     }
-    v.push(MultiCfg { dgram_first: true, plan: vec![0], udp_tc: true, udp_retries: 1, allow_refuse: false, tcp_silent: true });
+    v.push(MultiCfg { dgram_first: true, plan: vec![0], udp_tc: true, udp_retries: 1, allow_refuse: false, tcp_silent: true, gap: false });
     // multi_stream
     for plan in [vec![0], vec![0, 0], vec![0, 1]] {
         let refuse: &[bool] = if plan.len() == 1 { &[false, true] } else { &[false] };
         for &allow_refuse in refuse {
-            v.push(MultiCfg { dgram_first: false, plan: plan.clone(), udp_tc: false, udp_retries: 0, allow_refuse, tcp_silent: false });
+            v.push(MultiCfg { dgram_first: false, plan: plan.clone(), udp_tc: false, udp_retries: 0, allow_refuse, tcp_silent: false, gap: false });
         }
     }
-    v.push(MultiCfg { dgram_first: false, plan: vec![0], udp_tc: false, udp_retries: 0, allow_refuse: false, tcp_silent: true });
-    v.push(MultiCfg { dgram_first: false, plan: vec![0, 0], udp_tc: false, udp_retries: 0, allow_refuse: false, tcp_silent: true });
+    // second request after the stream connection idled out: must reconnect
+    v.push(MultiCfg { dgram_first: false, plan: vec![0, 0], udp_tc: false, udp_retries: 0, allow_refuse: false, tcp_silent: false, gap: true });
+    v.push(MultiCfg { dgram_first: false, plan: vec![0, 1], udp_tc: false, udp_retries: 0, allow_refuse: false, tcp_silent: false, gap: true });
+    v.push(MultiCfg { dgram_first: true, plan: vec![0, 0], udp_tc: true, udp_retries: 0, allow_refuse: false, tcp_silent: false, gap: true });
+    v.push(MultiCfg { dgram_first: false, plan: vec![0], udp_tc: false, udp_retries: 0, allow_refuse: false, tcp_silent: true, gap: false });
+    v.push(MultiCfg { dgram_first: false, plan: vec![0, 0], udp_tc: false, udp_retries: 0, allow_refuse: false, tcp_silent: true, gap: false });
     v
 }
 
